@@ -126,7 +126,7 @@ pub trait Engine: Sync + Send {
     }
     /// wall-clock limit for one execution; exceeding it is reported as `no-progress:wall-watchdog`
     fn wall_limit(&self) -> Duration {
-        Duration::from_secs(60)
+        Duration::from_secs(240)
     }
     fn components_real(&self) -> Vec<&'static str> {
         vec![]
